@@ -114,7 +114,7 @@ Step(p, ctx) ==
     ELSE IF RepNumber(p).t # "none" THEN [tok |-> RepNumber(p), ctx |-> ctx]
     ELSE IF ctx.attribute = 0 /\ ctx.expression = 0 /\ Repeater(p).t # "none" THEN [tok |-> Repeater(p), ctx |-> ctx]      \* is_allowed_repeater
     ELSE IF WhiteSp(p).t # "none" THEN [tok |-> WhiteSp(p), ctx |-> ctx]
-    ELSE LET l == LitLoop(p, ctx, ctx.expression, ctx.expression) IN
+    ELSE LET l == LitLoop(p, ctx, (IF ctx.expression # 0 THEN 1 ELSE 0), ctx.expression) IN      \* the literal belongs to the outermost expression also when it continues inside nested braces
          IF l.p > p THEN [tok |-> [t |-> "Literal", s |-> p, e |-> l.p], ctx |-> [ctx EXCEPT !.expression = l.expr]]
          ELSE IF OpType(C(p)) # "" THEN [tok |-> [t |-> "Operator", s |-> p, e |-> p+1], ctx |-> ctx]
          ELSE IF IsQuote(C(p)) THEN [tok |-> [t |-> "Quote", s |-> p, e |-> p+1], ctx |-> [ctx EXCEPT !.quote = IF C(p) = ctx.quote THEN "" ELSE C(p)]]
